@@ -18,7 +18,7 @@ REAL = common.REAL_DECODER
 ASSUMPTIONS = ["reference model + pinned layout snapshot (layout/tpm20_layout.json, extracted once from f0740e3) are "
                "the definition of 'what the layout tables dictate'",
                "generator self-check: serialised tree items == reference decode items on every run"]
-TIERS = {"quick": {"runs": 9000, "budget": 75}, "thorough": {"runs": 600000, "budget": 780}}
+TIERS = {"quick": {"runs": 40000, "budget": 75}, "thorough": {"runs": 600000, "budget": 780}}
 
 
 def make_case(i, rng, tier):
